@@ -98,6 +98,57 @@ _VALUES_NORM = (
 _EXTERNAL_URL = "        return f\"{scheme}//{host}{self.script_name[:-1]}/{path.lstrip('/')}\""
 _MODULE_RAISER = "def _redirect_to(url):\n    raise RequestRedirect(url)\n\n\n"
 
+# ---- round 4: host position (R12.9), defaults-provider predicate (R12.10), build order (R12.11)
+R = "routing/rules.py"
+_GET_HOST_BODY = (
+    "        if self.map.host_matching:\n"
+    "            if domain_part is None:\n"
+    "                return self.server_name\n"
+    "\n"
+    "            return domain_part\n"
+    "\n"
+    "        if domain_part is None:\n"
+    "            subdomain = self.subdomain\n"
+    "        else:\n"
+    "            subdomain = domain_part\n"
+    "\n"
+    "        if subdomain:\n"
+    "            return f\"{subdomain}.{self.server_name}\"\n"
+    "        else:\n"
+    "            return self.server_name\n"
+)
+_HM_BRANCH = "        if self.map.host_matching:\n            if domain_part is None:\n                return self.server_name\n\n            return domain_part\n"
+_SUB_CHOICE = "        if domain_part is None:\n            subdomain = self.subdomain\n        else:\n            subdomain = domain_part\n"
+_SUB_HOST = "            return f\"{subdomain}.{self.server_name}\"\n"
+_REDIRECT_HOST = "        host = self.get_host(domain_part)\n" + _PATH_JOIN
+_DEF_GET_HOST = "    def get_host(self, domain_part: str | None) -> str:\n"
+_PROVIDES = (
+    "        return bool(\n"
+    "            not self.build_only\n"
+    "            and self.defaults\n"
+    "            and self.endpoint == rule.endpoint\n"
+    "            and self != rule\n"
+    "            and self.arguments == rule.arguments\n"
+    "        )\n"
+)
+_SAME_ARGS = "            and self.arguments == rule.arguments\n"
+_BUILD_KEY = "        return (1 if self.alias else 0, -len(self.arguments), -len(self.defaults or ()))\n"
+_SORT = "                rules.sort(key=lambda x: x.build_compare_key())\n"
+_SORT_LOOP = "            for rules in self._rules_by_endpoint.values():\n" + _SORT
+_DEFAULTS_LOOP = (
+    "        for r in self.map._rules_by_endpoint[rule.endpoint]:\n"
+    "            # every rule that comes after this one, including ourself\n"
+    "            # has a lower priority for the defaults.  We order the ones\n"
+    "            # with the highest priority up for building.\n"
+    "            if r is rule:\n"
+    "                break\n"
+    "            if r.provides_defaults_for(rule) and r.suitable_for(values, method):\n"
+    "                values.update(r.defaults)  # type: ignore\n"
+    "                domain_part, path = r.build(values)  # type: ignore\n"
+    "                return self.make_redirect_url(path, query_args, domain_part=domain_part)\n"
+    "        return None\n"
+)
+
 
 def _candidate_list(elem: str) -> str:
     """the rule loop collecting every candidate in a list (append), the choice made afterwards."""
@@ -314,6 +365,34 @@ MUTANTS = [
     {"name": "module-level-raiser-given-the-bare-path", "expect": "R12.1", "edits": [(M, _SLASH_SITE, "            _redirect_to(new_path)"), (M, "class MapAdapter:\n", _MODULE_RAISER + "class MapAdapter:\n")]},
     {"name": "alias-build-arguments-table-puts-values-in-the-scheme", "expect": "R12.1", "edits": [(M, _ALIAS_BUILD,
         "        options = {\"append_unknown\": False, \"force_external\": True, \"url_scheme\": values.get(\"scheme\")}\n        url = self.build(endpoint, values, method, **options)\n")]},
+    # R12.9 (host position of the redirect URLs) -----------------------------------------------
+    {"name": "host-none-domain-returns-the-bare-server-name-first", "expect": "R12.9", "edits": [(M, _GET_HOST_BODY,
+        "        if domain_part is None:\n            return self.server_name\n\n        if self.map.host_matching:\n            return domain_part\n\n"
+        "        subdomain = domain_part\n\n        if subdomain:\n" + _SUB_HOST + "        else:\n            return self.server_name\n")]},
+    {"name": "redirect-url-helper-short-cuts-the-host-for-no-domain-part", "expect": "R12.9", "edits": [(M, _REDIRECT_HOST,
+        "        host = self.server_name if domain_part is None else self.get_host(domain_part)\n" + _PATH_JOIN)]},
+    {"name": "host-matching-test-inverted", "expect": "R12.9", "edits": [(M, _HM_BRANCH, _HM_BRANCH.replace("if self.map.host_matching:", "if not self.map.host_matching:"))]},
+    {"name": "subdomain-and-server-name-swapped", "expect": "R12.9", "edits": [(M, _SUB_HOST, "            return f\"{self.server_name}.{subdomain}\"\n")]},
+    {"name": "explicit-domain-part-loses-the-subdomain-prefix", "expect": "R12.9", "edits": [(M, "        if subdomain:\n" + _SUB_HOST, "        if subdomain and domain_part is None:\n" + _SUB_HOST)]},
+    {"name": "slash-redirect-passes-an-empty-domain-part", "expect": "R12.9", "edits": [(M, _SLASH_SITE,
+        "            raise RequestRedirect(\n                self.make_redirect_url(new_path, query_args, domain_part=\"\")\n            ) from None")]},
+    # R12.10 (defaults-provider predicate) -------------------------------------------------------
+    {"name": "defaults-provider-arguments-superset-operator", "expect": "R12.10", "edits": [(R, _SAME_ARGS, "            and self.arguments >= rule.arguments\n")]},
+    {"name": "defaults-provider-arguments-compared-by-size", "expect": "R12.10", "edits": [(R, _SAME_ARGS, "            and len(self.arguments) == len(rule.arguments)\n")]},
+    {"name": "defaults-provider-arguments-conjunct-dropped", "expect": "R12.10", "edits": [(R, _SAME_ARGS, "")]},
+    {"name": "defaults-provider-arguments-only-overlap", "expect": "R12.10", "edits": [(R, _SAME_ARGS, "            and not self.arguments.isdisjoint(rule.arguments)\n")]},
+    {"name": "defaults-provider-build-only-conjunct-dropped", "expect": "R12.10", "edits": [(R, "            not self.build_only\n            and self.defaults\n", "            self.defaults\n")]},
+    {"name": "defaults-provider-early-returns-and-subset-test", "expect": "R12.10", "edits": [(R, _PROVIDES,
+        "        if self.build_only or not self.defaults:\n            return False\n        if self.endpoint != rule.endpoint or self == rule:\n            return False\n"
+        "        return rule.arguments.issubset(self.arguments)\n")]},
+    {"name": "defaults-provider-compares-the-defaulted-keys-only", "expect": "R12.10", "edits": [(R, _SAME_ARGS, "            and set(self.defaults) <= rule.arguments\n")]},
+    # R12.11 (build order of the per-endpoint rule lists) -----------------------------------------
+    {"name": "build-key-alias-flag-last", "expect": "R12.11", "edits": [(R, _BUILD_KEY, "        return (-len(self.arguments), -len(self.defaults or ()), 1 if self.alias else 0)\n")]},
+    {"name": "build-key-alias-flag-polarity-inverted", "expect": "R12.11", "edits": [(R, _BUILD_KEY, "        return (0 if self.alias else 1, -len(self.arguments), -len(self.defaults or ()))\n")]},
+    {"name": "build-key-without-the-alias-flag", "expect": "R12.11", "edits": [(R, _BUILD_KEY, "        return (-len(self.arguments), -len(self.defaults or ()))\n")]},
+    {"name": "rule-lists-sorted-in-reverse", "expect": "R12.11", "edits": [(M, _SORT, "                rules.sort(key=lambda x: x.build_compare_key(), reverse=True)\n")]},
+    {"name": "inline-sort-key-orders-by-defaults-before-the-alias-flag", "expect": "R12.11", "edits": [(M, _SORT, "                rules.sort(key=lambda r: (-len(r.defaults or ()), bool(r.alias), -len(r.arguments)))\n")]},
+    {"name": "build-key-alias-flag-folded-into-the-defaults-count", "expect": "R12.11", "edits": [(R, _BUILD_KEY, "        return (-len(self.arguments), int(self.alias) - len(self.defaults or ()))\n")]},
 ]
 
 TWINS = [
@@ -503,5 +582,77 @@ TWINS = [
     {"name": "build-values-normalised-by-a-static-helper-called-through-the-class", "edits": [
         (M, _VALUES_NORM, "        values = MapAdapter._clean_values(values)\n"),
         (M, _DEF_BUILD, "    @staticmethod\n" + "".join("    " + ln + "\n" for ln in _MODULE_CLEAN.rstrip("\n").split("\n")) + "\n" + _DEF_BUILD),
+    ]},
+    # R12.9 ------------------------------------------------------------------
+    {"name": "host-subdomain-chosen-by-conditional-expression", "edits": [(M, _SUB_CHOICE, "        subdomain = self.subdomain if domain_part is None else domain_part\n")]},
+    {"name": "host-matching-branch-as-one-conditional-return", "edits": [(M, _HM_BRANCH, "        if self.map.host_matching:\n            return self.server_name if domain_part is None else domain_part\n")]},
+    {"name": "host-subdomain-mode-handled-first", "edits": [(M, _GET_HOST_BODY,
+        "        if not self.map.host_matching:\n"
+        "            subdomain = self.subdomain if domain_part is None else domain_part\n"
+        "            return f\"{subdomain}.{self.server_name}\" if subdomain else self.server_name\n"
+        "        if domain_part is None:\n"
+        "            return self.server_name\n"
+        "        return domain_part\n")]},
+    {"name": "host-joined-with-str-join", "edits": [(M, _SUB_HOST, "            return \".\".join((subdomain, self.server_name))\n")]},
+    {"name": "slash-redirect-passes-no-domain-part-explicitly-host-in-a-renamed-local", "edits": [
+        (M, _SLASH_SITE, "            raise RequestRedirect(\n                self.make_redirect_url(new_path, query_args, domain_part=None)\n            ) from None"),
+        (M, _REDIRECT_HOST + "\n        return urlunsplit((scheme, host, path, query_str, None))",
+         "        netloc = self.get_host(domain_part)\n" + _PATH_JOIN + "\n        return urlunsplit((scheme, netloc, path, query_str, None))"),
+    ]},
+    {"name": "bound-host-in-a-helper-method-explicit-domain-handled-separately", "edits": [
+        (M, _GET_HOST_BODY,
+        "        if domain_part is None:\n"
+        "            return self._bound_host()\n"
+        "        if self.map.host_matching:\n"
+        "            return domain_part\n"
+        "        if not domain_part:\n"
+        "            return self.server_name\n"
+        "        return f\"{domain_part}.{self.server_name}\"\n"),
+        (M, _DEF_GET_HOST,
+        "    def _bound_host(self) -> str:\n"
+        "        if self.map.host_matching or not self.subdomain:\n"
+        "            return self.server_name\n"
+        "        return f\"{self.subdomain}.{self.server_name}\"\n\n" + _DEF_GET_HOST),
+    ]},
+    # R12.10 -----------------------------------------------------------------
+    {"name": "defaults-provider-early-return-style", "edits": [(R, _PROVIDES,
+        "        if self.build_only or not self.defaults:\n            return False\n\n"
+        "        return (\n            self.endpoint == rule.endpoint\n            and self != rule\n            and self.arguments == rule.arguments\n        )\n")]},
+    {"name": "defaults-provider-empty-symmetric-difference", "edits": [(R, _SAME_ARGS, "            and not (self.arguments ^ rule.arguments)\n")]},
+    {"name": "defaults-provider-mutual-subset", "edits": [(R, _SAME_ARGS, "            and self.arguments <= rule.arguments\n            and rule.arguments <= self.arguments\n")]},
+    {"name": "defaults-provider-conjuncts-in-flag-locals", "edits": [(R, _PROVIDES,
+        "        usable = not self.build_only and bool(self.defaults)\n"
+        "        same_arguments = rule.arguments == self.arguments\n"
+        "        return usable and same_arguments and self.endpoint == rule.endpoint and self != rule\n")]},
+    {"name": "defaults-provider-as-one-conditional-expression", "edits": [(R, _PROVIDES,
+        "        return False if self.build_only or not self.defaults else bool(\n"
+        "            self.endpoint == rule.endpoint and not self == rule and self.arguments.issubset(rule.arguments) and self.arguments.issuperset(rule.arguments)\n"
+        "        )\n")]},
+    {"name": "defaults-provider-found-with-next-over-a-filtering-generator", "edits": [(M, _DEFAULTS_LOOP,
+        "        candidates = self.map._rules_by_endpoint[rule.endpoint]\n"
+        "        before = candidates[: next(i for i, r in enumerate(candidates) if r is rule)]\n"
+        "        provider = next(\n"
+        "            (r for r in before if r.provides_defaults_for(rule) and r.suitable_for(values, method)),\n"
+        "            None,\n"
+        "        )\n"
+        "        if provider is None:\n"
+        "            return None\n"
+        "        values.update(provider.defaults)  # type: ignore\n"
+        "        domain_part, path = provider.build(values)  # type: ignore\n"
+        "        return self.make_redirect_url(path, query_args, domain_part=domain_part)\n")]},
+    # R12.11 -----------------------------------------------------------------
+    {"name": "build-key-parts-in-locals", "edits": [(R, _BUILD_KEY,
+        "        alias_rank = int(bool(self.alias))\n        n_defaults = len(self.defaults) if self.defaults else 0\n        return (alias_rank, -len(self.arguments), -n_defaults)\n")]},
+    {"name": "sort-key-inlined-as-a-lambda", "edits": [(M, _SORT, "                rules.sort(key=lambda r: (1 if r.alias else 0, -len(r.arguments), -len(r.defaults or ())))\n")]},
+    {"name": "sort-key-as-the-unbound-method", "edits": [(M, _SORT, "                rules.sort(key=Rule.build_compare_key)\n")]},
+    {"name": "rule-lists-replaced-by-sorted-copies", "edits": [(M, _SORT_LOOP,
+        "            for endpoint, rules in self._rules_by_endpoint.items():\n                self._rules_by_endpoint[endpoint] = sorted(rules, key=lambda x: x.build_compare_key())\n")]},
+    {"name": "negated-key-sorted-in-reverse", "edits": [
+        (R, _BUILD_KEY, "        return (0 if self.alias else 1, len(self.arguments), len(self.defaults or ()))\n"),
+        (M, _SORT, "                rules.sort(key=lambda x: x.build_compare_key(), reverse=True)\n"),
+    ]},
+    {"name": "sort-key-through-operator-methodcaller", "edits": [
+        (M, "import typing as t\n", "import operator\nimport typing as t\n"),
+        (M, _SORT, "                rules.sort(key=operator.methodcaller(\"build_compare_key\"))\n"),
     ]},
 ]
